@@ -110,3 +110,12 @@ def check_runset(proj, obs, strict=True):
         out.append(({"kind": "over-built", "world": proj.w.name, "targets": extra, "cmd": op[0]},
                     {"ran": ran, "must": pred["ran"]}))
     return out
+
+
+def check_kill(proj, obs):
+    """interrupted builds (op kbuild): the implementation reached the kill point iff the reference did"""
+    if obs.get("kill_mismatch"):
+        return [({"kind": "interrupted-build-mismatch", "world": proj.w.name, "victim": obs["op"][2], "pos": obs["op"][3],
+                  "reference_killed": obs["pred"]["killed"]},
+                 {"rc": obs["rc"], "ran": executed(obs["trace"]), "must": obs["pred"]["ran"], "err": obs["err"][-400:]})]
+    return []
